@@ -15,12 +15,12 @@ Proof.
 Qed.
 Print Assumptions C14_inv.
 
-(* A new connection is admitted iff fewer than MaxConnections are being served. *)
-Theorem C14_admit : forall max es c,
+(* A new connection is let in iff fewer than MaxConnections are being served. *)
+Theorem C14_accept : forall max es c,
   let s := crun max cinit es in ~ In c (opened s) ->
   snd (cstep max s (CAccept c)) = true <-> (Z.of_nat (length (opened s)) < max)%Z.
-Proof. exact (fun max es c => admit_iff max _ c (cinv_run max es cinit (cinv_init max))). Qed.
-Print Assumptions C14_admit.
+Proof. exact (fun max es c => accept_iff max _ c (cinv_run max es cinit (cinv_init max))). Qed.
+Print Assumptions C14_accept.
 
 (* Every served connection that ends frees exactly its own slot. *)
 Theorem C14_release : forall max es c,
